@@ -1,3 +1,428 @@
+//! Part 3: rules on the group returned by `PatchGroup::select_next_patches`.
+//!
+//! The candidates are recomputed by the reference (`ref_tables`, already compared with
+//! `intersecting_patches` in parts 1/2); a group is accepted iff its URIs can be attributed to
+//! candidates such that: no URI twice; every URI is a candidate's; a fully invalidating patch is
+//! alone; at most one invalidating patch per mapping table; every invalidating choice is maximal by
+//! intersection size with the earliest entry on ties (within its table; across tables an equal
+//! size is a tie either way).
+
+use crate::model::*;
 use crate::*;
-pub fn run_groups(_ctx: &Ctx, _base: &BaseTables) {}
-pub fn replay(_run: &Run, _base: &BaseTables, _case: &Value) {}
+use incremental_font_transfer::patch_group::PatchGroup;
+
+pub fn better(a: &RefPatch, b: &RefPatch) -> bool {
+    match a.info.size_cmp(&b.info) {
+        std::cmp::Ordering::Greater => true,
+        std::cmp::Ordering::Equal => a.table == b.table && a.order < b.order,
+        std::cmp::Ordering::Less => false,
+    }
+}
+
+/// Ok, or (rule broken, detail)
+pub fn check_group(cands: &[RefPatch], group: &[String]) -> Result<(), (String, String)> {
+    for (i, u) in group.iter().enumerate() {
+        if group[..i].contains(u) {
+            return Err(("the same URI twice".into(), u.clone()));
+        }
+        if !cands.iter().any(|c| &c.uri == u) {
+            return Err(("a URI that no intersecting un-applied entry has".into(), u.clone()));
+        }
+    }
+    // all attributions group uri -> candidate index
+    let options: Vec<Vec<usize>> = group
+        .iter()
+        .map(|u| (0..cands.len()).filter(|i| &cands[*i].uri == u).collect())
+        .collect();
+    let mut first_failure: Option<(String, String)> = None;
+    let mut idx = vec![0usize; group.len()];
+    loop {
+        let att: Vec<&RefPatch> = idx.iter().enumerate().map(|(g, k)| &cands[options[g][*k]]).collect();
+        match attribution_ok(cands, group, &att) {
+            Ok(()) => return Ok(()),
+            Err(e) => {
+                if first_failure.is_none() {
+                    first_failure = Some(e);
+                }
+            }
+        }
+        // next attribution
+        let mut p = 0;
+        loop {
+            if p == idx.len() {
+                return match first_failure {
+                    Some(e) => Err(e),
+                    None => Ok(()), // empty group
+                };
+            }
+            idx[p] += 1;
+            if idx[p] < options[p].len() {
+                break;
+            }
+            idx[p] = 0;
+            p += 1;
+        }
+    }
+}
+
+fn attribution_ok(cands: &[RefPatch], group: &[String], att: &[&RefPatch]) -> Result<(), (String, String)> {
+    let fulls: Vec<&&RefPatch> = att.iter().filter(|c| c.format == 1).collect();
+    if !fulls.is_empty() && att.len() != 1 {
+        return Err((
+            "other patches alongside a fully invalidating one".into(),
+            format!("{:?}", group),
+        ));
+    }
+    for table in [0u8, 1] {
+        let n = att.iter().filter(|c| c.format == 2 && c.table == table).count();
+        if n > 1 {
+            return Err((
+                "more than one invalidating patch for one mapping table".into(),
+                format!("{:?}", group),
+            ));
+        }
+    }
+    for c in att.iter().filter(|c| c.format != 3) {
+        let rivals = cands.iter().filter(|r| {
+            r.format == c.format
+                && (c.format == 1 || r.table == c.table)
+                && (r.uri == c.uri || !group.contains(&r.uri))
+        });
+        for r in rivals {
+            if better(r, c) {
+                return Err((
+                    if r.info.size_cmp(&c.info) == std::cmp::Ordering::Equal {
+                        "invalidating choice is not the earliest entry among equal intersections".into()
+                    } else {
+                        "invalidating choice is not the one with the largest intersection".into()
+                    },
+                    format!("chosen {:?}; better {:?}", c, r),
+                ));
+            }
+        }
+    }
+    Ok(())
+}
+
+#[derive(Clone, serde::Serialize, serde::Deserialize)]
+pub struct GroupCase {
+    pub ift: Option<TableModel>,
+    pub iftx: Option<TableModel>,
+    pub def: Def,
+}
+
+pub fn run_one(ctx: &Ctx, base: &BaseTables, gc: &GroupCase, sd: &SubsetDefinition, local: &mut Local) {
+    let ift_b = gc.ift.as_ref().map(encode_table);
+    let iftx_b = gc.iftx.as_ref().map(encode_table);
+    let font = wrap_font(base, ift_b.as_deref(), iftx_b.as_deref());
+    let case = || json!({"kind":"group","group": gc});
+    local.evals += 1;
+    let r = guard(|| {
+        let fr = FontRef::new(&font).map_err(|e| format!("font: {e}"))?;
+        let g = PatchGroup::select_next_patches(fr, sd).map_err(|e| format!("{e}"))?;
+        let uris: Vec<String> = g.uris().map(|s| s.to_string()).collect();
+        Ok::<_, String>((uris, g.has_uris()))
+    });
+    let sig = format!("{} {}", table_sig(gc.ift.as_ref()), table_sig(gc.iftx.as_ref()));
+    let cands = match ref_tables(&base.cmap, base.num_glyphs, gc.ift.as_ref(), gc.iftx.as_ref(), &gc.def) {
+        Ok(c) => c,
+        Err(_) => return, // malformed tables are not part of this space
+    };
+    let compat_of = |t: &Option<TableModel>| {
+        t.as_ref().map(|t| match t {
+            TableModel::F1(t) => t.compat,
+            TableModel::F2(t) => t.compat,
+        })
+    };
+    let same_compat = compat_of(&gc.ift) == compat_of(&gc.iftx);
+    let mut h = Fnv::new();
+    h.str("group");
+    match r {
+        Err(p) => {
+            ctx.run.violation(
+                &format!("select_next_patches panics: {} at {}", p.kind(), p.site()),
+                &p.message,
+                case(),
+            );
+        }
+        Ok(Err(e)) => {
+            h.str("err");
+            if !same_compat {
+                ctx.run.violation(
+                    &format!("select_next_patches fails on well-formed mapping tables with distinct compatibility ids: {sig}"),
+                    &e,
+                    case(),
+                );
+            }
+        }
+        Ok(Ok((uris, has))) => {
+            if has != !uris.is_empty() {
+                ctx.run.violation("PatchGroup::has_uris disagrees with uris()", &format!("{uris:?}"), case());
+            }
+            if let Err((rule, detail)) = check_group(&cands, &uris) {
+                ctx.run.violation(
+                    &format!("select_next_patches group contains {rule}"),
+                    &format!("{sig}: group={uris:?} candidates={cands:?} :: {detail}"),
+                    case(),
+                );
+            }
+            for u in &uris {
+                h.str(u);
+            }
+            h.u64(cands.iter().filter(|c| c.format == 1).count() as u64);
+            h.u64(cands.iter().filter(|c| c.format == 2).count() as u64);
+            h.u64(cands.len() as u64);
+            if !uris.is_empty() {
+                local.nontrivial.insert(h.finish());
+            }
+        }
+    }
+    local.all.insert(h.finish());
+}
+
+fn entry(cps: &[u32], format: u8) -> E2 {
+    let mut e = E2::plain();
+    e.cps = Cps::Set {
+        bias_kind: 0,
+        bias: 0,
+        members: cps.to_vec(),
+    };
+    e.patch_format = Some(format);
+    e
+}
+
+/// one- and two-entry format-2 tables over cps {A},{A,B},{B} x formats {1,2,3}; second entry optionally
+/// re-using the first entry's id (same URI twice inside one table)
+fn small_tables(template: &[u8], compat: [u32; 4]) -> Vec<T2> {
+    let cps: [&[u32]; 3] = [&[A], &[A, B], &[B]];
+    let mut singles = vec![];
+    for c in cps {
+        for f in [1u8, 2, 3] {
+            singles.push(entry(c, f));
+        }
+    }
+    let mut out = vec![];
+    let mk = |entries: Vec<E2>| {
+        let mut t = t2_of(entries);
+        t.template = template.to_vec();
+        t.compat = compat;
+        t
+    };
+    for a in &singles {
+        out.push(mk(vec![a.clone()]));
+        for b in &singles {
+            out.push(mk(vec![a.clone(), b.clone()]));
+            let mut b2 = b.clone();
+            b2.id = IdSpec::Delta(-1);
+            out.push(mk(vec![a.clone(), b2]));
+        }
+    }
+    out
+}
+
+pub fn run_groups(ctx: &Ctx, base: &BaseTables) {
+    let run = ctx.run;
+    let thorough = run.tier == Tier::Thorough;
+    let defs: Vec<Def> = [vec![A], vec![B], vec![A, B]]
+        .into_iter()
+        .map(|c| Def {
+            cps: DCps::Set(c),
+            feats: DFeat::Set(vec![]),
+            ds: DDs::Ranges(vec![]),
+        })
+        .chain([Def {
+            cps: DCps::AllExcept(vec![]),
+            feats: DFeat::All,
+            ds: DDs::All,
+        }])
+        .collect();
+    let sds: Vec<_> = defs.iter().map(to_subset_definition).collect();
+    let c1 = [1u32, 2, 3, 4];
+    let c2 = [9u32, 9, 9, 9];
+    let ift_tables = small_tables(b"p/{id}", c1);
+    let iftx_same = small_tables(b"p/{id}", c2);
+    let iftx_other = small_tables(b"q/{id}", c2);
+    let iftx_same_compat = small_tables(b"q/{id}", c1);
+    run.bound("group_tables_per_side", json!(ift_tables.len()));
+    run.bound("group_definitions", json!(defs.len()));
+    // single table fonts
+    let mut n = 0u64;
+    {
+        let mut l = Local::default();
+        for t in &ift_tables {
+            for (d, sd) in defs.iter().zip(&sds) {
+                let gc = GroupCase { ift: Some(TableModel::F2(t.clone())), iftx: None, def: d.clone() };
+                run_one(ctx, base, &gc, sd, &mut l);
+                let gc = GroupCase { ift: None, iftx: Some(TableModel::F2(t.clone())), def: d.clone() };
+                run_one(ctx, base, &gc, sd, &mut l);
+                n += 2;
+            }
+        }
+        ctx.merge(l);
+    }
+    // two table fonts: quick thins the IFTX side to every 3rd table for the "other template" family
+    let step = if thorough { 1 } else { 2 };
+    {
+        let (ift_tables, iftx_same, iftx_other, iftx_same_compat, defs, sds) =
+            (&ift_tables, &iftx_same, &iftx_other, &iftx_same_compat, &defs, &sds);
+        let counter = std::sync::atomic::AtomicU64::new(0);
+        par_for(ift_tables.len(), |i| {
+            let mut l = Local::default();
+            let mut k = 0u64;
+            for (fam, tabs) in [iftx_same, iftx_other, iftx_same_compat].into_iter().enumerate() {
+                for (j, x) in tabs.iter().enumerate() {
+                    if fam == 1 && (i + j) % step != 0 {
+                        continue;
+                    }
+                    if fam == 2 && (i + j) % 7 != 0 {
+                        continue;
+                    }
+                    for (d, sd) in defs.iter().zip(sds) {
+                        let gc = GroupCase {
+                            ift: Some(TableModel::F2(ift_tables[i].clone())),
+                            iftx: Some(TableModel::F2(x.clone())),
+                            def: d.clone(),
+                        };
+                        run_one(ctx, base, &gc, sd, &mut l);
+                        k += 1;
+                    }
+                }
+            }
+            counter.fetch_add(k, std::sync::atomic::Ordering::Relaxed);
+            ctx.merge(l);
+        });
+        n += counter.load(std::sync::atomic::Ordering::Relaxed);
+    }
+    // IFTX as a format-1 table (formats 1,2,3), IFT format 2
+    {
+        let mut l = Local::default();
+        for fmt in [1u8, 2, 3] {
+            for entry_index in [vec![1u16, 2, 1, 0, 0], vec![2, 1, 1, 3, 0], vec![1, 1, 2, 2, 3]] {
+                for applied in [0u8, 0b10] {
+                    let f1 = T1 {
+                        compat: c2,
+                        max_entry_index: 3,
+                        max_glyph_map_entry_index: 3,
+                        glyph_count: 6,
+                        first_mapped_glyph: 1,
+                        entry_index: entry_index.clone(),
+                        feature_map: None,
+                        applied: vec![applied],
+                        template: b"p/{id}".to_vec(),
+                        patch_format: fmt,
+                        cff_off: None,
+                        cff2_off: None,
+                    };
+                    for (ti, t) in ift_tables.iter().enumerate() {
+                        if !thorough && ti % 3 != 0 {
+                            continue;
+                        }
+                        for (d, sd) in defs.iter().zip(&sds) {
+                            let gc = GroupCase {
+                                ift: Some(TableModel::F2(t.clone())),
+                                iftx: Some(TableModel::F1(f1.clone())),
+                                def: d.clone(),
+                            };
+                            run_one(ctx, base, &gc, sd, &mut l);
+                            let gc = GroupCase {
+                                ift: Some(TableModel::F1({
+                                    let mut x = f1.clone();
+                                    x.compat = c2;
+                                    x
+                                })),
+                                iftx: Some(TableModel::F2({
+                                    let mut x = t.clone();
+                                    x.compat = c1;
+                                    x
+                                })),
+                                def: d.clone(),
+                            };
+                            run_one(ctx, base, &gc, sd, &mut l);
+                            n += 2;
+                        }
+                    }
+                }
+            }
+        }
+        ctx.merge(l);
+    }
+    // intersection sizes that differ only in features / design space, ties, three candidates
+    {
+        let shapes: Vec<E2> = {
+            let mut v = vec![];
+            let mk = |feats: &[TagB], segs: Vec<Seg>| {
+                let mut e = entry(&[A], 2);
+                e.patch_format = None;
+                e.fds = true;
+                e.features = feats.to_vec();
+                e.segs = segs;
+                e
+            };
+            v.push(mk(&[LIGA], vec![]));
+            v.push(mk(&[LIGA, SMCP], vec![]));
+            v.push(mk(&[], vec![seg(WGHT, 100, 400)]));
+            v.push(mk(&[], vec![seg(WGHT, 300, 700)]));
+            v.push(mk(&[], vec![seg(WGHT, 300, 700), seg(WDTH, 75, 100)]));
+            let mut plain = entry(&[A, B], 2);
+            plain.patch_format = None;
+            v.push(plain);
+            v
+        };
+        let defs2: Vec<Def> = {
+            let mut v = vec![];
+            for cps in [DCps::Set(vec![A]), DCps::Set(vec![A, B])] {
+                for f in [DFeat::All, DFeat::Set(vec![LIGA]), DFeat::Set(vec![LIGA, SMCP])] {
+                    for ds in [
+                        DDs::All,
+                        DDs::Ranges(vec![(WGHT, vec![(fx(350), fx(500))])]),
+                        DDs::Ranges(vec![(WGHT, vec![(fx(400), fx(400))])]),
+                        DDs::Ranges(vec![(WGHT, vec![(fx(100), fx(700))]), (WDTH, vec![(fx(80), fx(90))])]),
+                    ] {
+                        v.push(Def { cps: cps.clone(), feats: f.clone(), ds });
+                    }
+                }
+            }
+            v
+        };
+        let sds2: Vec<_> = defs2.iter().map(to_subset_definition).collect();
+        let (shapes, defs2, sds2) = (&shapes, &defs2, &sds2);
+        let ns = shapes.len();
+        let counter = std::sync::atomic::AtomicU64::new(0);
+        par_for(ns * ns * ns, |code| {
+            let mut l = Local::default();
+            let (a, b, c) = (code % ns, (code / ns) % ns, code / (ns * ns));
+            let mut k = 0;
+            for default_format in [1u8, 2] {
+                for in_iftx in [false, true] {
+                    let mut t = t2_of(vec![shapes[a].clone(), shapes[b].clone(), shapes[c].clone()]);
+                    t.default_format = default_format;
+                    for (d, sd) in defs2.iter().zip(sds2) {
+                        let gc = if in_iftx {
+                            GroupCase { ift: None, iftx: Some(TableModel::F2(t.clone())), def: d.clone() }
+                        } else {
+                            GroupCase { ift: Some(TableModel::F2(t.clone())), iftx: None, def: d.clone() }
+                        };
+                        run_one(ctx, base, &gc, sd, &mut l);
+                        k += 1;
+                    }
+                }
+            }
+            counter.fetch_add(k, std::sync::atomic::Ordering::Relaxed);
+            ctx.merge(l);
+        });
+        n += counter.load(std::sync::atomic::Ordering::Relaxed);
+    }
+    run.count("group_selections_checked", n);
+    run.sample(json!({"space":"group","ift": ift_tables[40], "iftx": iftx_same[77], "definition": defs[2]}));
+}
+
+pub fn replay(run: &Run, base: &BaseTables, case: &Value) {
+    let gc: GroupCase = serde_json::from_value(case["group"].clone()).expect("group case");
+    let ctx = Ctx {
+        run,
+        sink: Mutex::new(Local::default()),
+    };
+    let sd = to_subset_definition(&gc.def);
+    let mut l = Local::default();
+    run_one(&ctx, base, &gc, &sd, &mut l);
+}
